@@ -436,6 +436,16 @@ func checkC11(P *Program, r *Result, tier string) {
 		// ---- BLENGTH ----
 		blengthRule(P, r, A, tg.typ, bl, wr)
 	}
+	// no error of a nested read or skip is dropped by the shipped structs
+	{
+		fns := pkgFuncs(P, relBase)
+		for _, n := range []string{"FastRead", "FastWrite", "FastWriteNocopy", "BLength"} {
+			if f := P.Method(relThrift, "ApplicationException", n); f != nil {
+				fns = append(fns, f)
+			}
+		}
+		errDisciplineRule(P, r, "CURSOR-ARG", fns)
+	}
 }
 
 // fieldStoresIn: names of receiver fields stored (or map-updated) in the true region of cond.
@@ -1296,6 +1306,39 @@ func coverRule(P *Program, r *Result, rule string, fa *FA, fn *ssa.Function, buf
 			}
 		}
 	}
+	windowStarts := []*Lin{linConst(0)}
+	for _, b := range fn.Blocks {
+		for _, in := range b.Instrs {
+			if sl, ok := in.(*ssa.Slice); ok && isByteSlice(sl.Type()) && sl.Low != nil {
+				// a window that code goes on to work in (indexed or sliced again), not just an argument b[off:]
+				workedIn := false
+				if refs := sl.Referrers(); refs != nil {
+					for _, ref := range *refs {
+						switch u := ref.(type) {
+						case *ssa.IndexAddr:
+							workedIn = workedIn || u.X == ssa.Value(sl)
+						case *ssa.Slice:
+							workedIn = workedIn || u.X == ssa.Value(sl)
+						}
+					}
+				}
+				if !workedIn {
+					continue
+				}
+				if d := fa.sliceDesc(sl); d != nil && d.Root == ssa.Value(buf) && d.Off != nil && !d.Off.isConst() {
+					dup := false
+					for _, k := range windowStarts {
+						if k.equal(d.Off) {
+							dup = true
+						}
+					}
+					if !dup && len(windowStarts) < 24 {
+						windowStarts = append(windowStarts, d.Off)
+					}
+				}
+			}
+		}
+	}
 	seen := map[ssa.Value]bool{}
 	n := 0
 	var walk func(v ssa.Value)
@@ -1325,7 +1368,7 @@ func coverRule(P *Program, r *Result, rule string, fa *FA, fn *ssa.Function, buf
 				leaves = append(leaves, y)
 			}
 			flat(x)
-			var base ssa.Value
+			var others []ssa.Value // neither a constant nor what a call reports
 			for _, l := range leaves {
 				if _, isC := l.(*ssa.Const); isC {
 					continue
@@ -1333,59 +1376,106 @@ func coverRule(P *Program, r *Result, rule string, fa *FA, fn *ssa.Function, buf
 				if _, isCall := asCallValue(l); isCall {
 					continue
 				}
-				if base != nil {
-					base = nil
-					break
-				}
-				base = l
+				others = append(others, l)
 			}
 			n++
 			pos := P.pos(instrPos(x))
-			bl := linConst(0)
-			if base != nil {
-				bl = fa.expand(base)
-			}
-			delta := fa.expand(x).sub(bl)
-			at := linConst(0)
+			total := fa.expand(x)
 			okCover, detail := false, ""
-			for step := 0; step < 64; step++ {
-				if at.equal(delta) {
+			// one of the other operands is the cursor as it was (or there is none: the count starts at 0); any further
+			// one is the count reported by a part that worked on a window of the buffer starting where it was reached
+			tryWith := func(base ssa.Value) bool {
+				bl := linConst(0)
+				if base != nil {
+					bl = fa.expand(base)
+				}
+				delta := total.sub(bl)
+				var parts []*Lin
+				for _, o := range others {
+					if o != base {
+						parts = append(parts, fa.expand(o))
+					}
+				}
+				for _, k := range windowStarts {
+					at := linConst(0)
+					used := make([]bool, len(parts))
+					for step := 0; step < 64; step++ {
+						if at.equal(delta) {
+							return true
+						}
+						moved := false
+						for pi, pl := range parts {
+							if used[pi] {
+								continue
+							}
+							here := k.add(bl).add(at)
+							for _, ws := range windowStarts[1:] { // a real window b[k:], not the buffer itself
+								if ws.equal(here) {
+									used[pi] = true
+									at = at.add(pl)
+									moved = true
+									break
+								}
+							}
+							if moved {
+								break
+							}
+						}
+						if moved {
+							continue
+						}
+						for _, w := range writes {
+							if !instrDominates(w.in, x) {
+								continue
+							}
+							d := at.sub(w.off.sub(k).sub(bl))
+							if j, isK := d.constVal(); isK && j.IsInt64() && j.Int64() >= 0 && j.Int64() < w.w {
+								at = at.addConst(w.w - j.Int64())
+								moved = true
+								break
+							}
+						}
+						if moved {
+							continue
+						}
+						for _, c := range wcalls {
+							if !instrDominates(c.in, x) {
+								continue
+							}
+							if c.off.sub(k).sub(bl).equal(at) {
+								at = at.add(c.ret)
+								moved = true
+								break
+							}
+						}
+						if moved {
+							continue
+						}
+						if !moved {
+							if detail == "" {
+								detail = "nothing is stored at cursor + " + fa.A.linString(at) + " although " + fa.A.linString(delta) + " bytes are counted"
+							}
+							break
+						}
+					}
+				}
+				return false
+			}
+			if tryWith(nil) {
+				okCover = true
+			}
+			for _, o := range others {
+				if !okCover && tryWith(o) {
 					okCover = true
-					break
-				}
-				moved := false
-				for _, w := range writes {
-					if !instrDominates(w.in, x) {
-						continue
-					}
-					d := at.sub(w.off.sub(bl))
-					if j, isK := d.constVal(); isK && j.IsInt64() && j.Int64() >= 0 && j.Int64() < w.w {
-						at = at.addConst(w.w - j.Int64())
-						moved = true
-						break
-					}
-				}
-				if moved {
-					continue
-				}
-				for _, c := range wcalls {
-					if !instrDominates(c.in, x) {
-						continue
-					}
-					if c.off.sub(bl).equal(at) {
-						at = at.add(c.ret)
-						moved = true
-						break
-					}
-				}
-				if !moved {
-					detail = "nothing is stored at cursor + " + fa.A.linString(at) + " although " + fa.A.linString(delta) + " bytes are counted"
-					break
 				}
 			}
+			if okCover {
+				detail = ""
+			}
+			bases := others
 			r.add(rule, shortName(fn), "cover", "every byte the cursor moves over was stored, or written by a call handed the buffer at that position", pos, okCover, detail)
-			if base != nil {
-				walk(base)
+			for _, b := range bases {
+				walk(b)
 			}
 		}
 	}
